@@ -11,7 +11,7 @@ ASSUMPTIONS = [
     "delivery model: per-channel FIFO interleavings, sleep-set reduced; canonical schedule where stated",
 ]
 BOUNDS = {
-    "quick": "MGM: pair (also with break_mode=random) (all schedules), pair with two constraints and own cost tables on both variables (second table pinned to 0), chain-3 (canonical schedule), min and max; MGM2: pair, chain-3 pinned to the witness tables of the committed-tie finding; stop_cycle 3",
+    "quick": "MGM: pair (also with break_mode=random, and with entries that are either symbolic or infinite) (all schedules), pair with two constraints and own cost tables on both variables (second table pinned to 0), chain-3 (canonical schedule), min and max; MGM2: pair, chain-3 pinned to the witness tables of the committed-tie finding; stop_cycle 3",
     "thorough": "quick + MGM triangle, star-3, ternary; chain-3 all schedules; bug hunting only (cpu budget): MGM2 chain-3 with symbolic tables",
 }
 OUTSIDE = "more than 4 variables, domain above 2, cycles beyond the third (inductive reading through arbitrary initial values; "\
@@ -27,6 +27,10 @@ def jobs(tier):
                     "fixed": True})
         # own cost tables on both variables, two constraints over the same pair (tables of the second constraint and the
         # initial assignment pinned to keep the job small)
+        # hard constraints: every entry is either a finite symbolic cost or an infinite one (+inf when minimising,
+        # -inf when maximising)
+        out.append({"name": "mgm-pair-hard-%s" % mode, "algo": "mgm", "spec": spec("pair", mode), "stop": 3,
+                    "kinds": ["sym", "inf" if mode == "min" else "-inf"]})
         # non-default tie-break parameter
         out.append({"name": "mgm-pair-breakrandom-%s" % mode, "algo": "mgm", "spec": spec("pair", mode), "stop": 3,
                     "params": {"break_mode": "random"}})
@@ -70,6 +74,31 @@ def _watch_committed_ties():
     Mgm2Computation._handle_gain_messages = wrapped
 
 
+def _cost(inst, asg):
+    """Total cost; a concrete float infinity as soon as one term is infinite (entries are never of opposite infinities)."""
+    terms = []
+    for cname, scope in inst.scopes.items():
+        terms.append(inst.tables[cname][tuple(inst.domains[v].index(asg[v]) for v in scope)])
+    for v, costs in inst.vcosts.items():
+        terms.append(costs[asg[v]])
+    infs = [t for t in terms if isinstance(t, float) and t in (float("inf"), float("-inf"))]
+    if infs:
+        return infs[0]
+    return F.sum(terms) if terms else 0
+
+
+def _not_worse(a, b, mode):
+    ia = isinstance(a, float) and a in (float("inf"), float("-inf"))
+    ib = isinstance(b, float) and b in (float("inf"), float("-inf"))
+    if ia or ib:
+        if ia and ib:
+            return True
+        if mode == "min":
+            return ib if not ia else False          # finite <= +inf ; +inf <= finite is false
+        return ib if not ia else False              # max: finite >= -inf ; -inf >= finite is false
+    return F.le(a, b) if mode == "min" else F.ge(a, b)
+
+
 def regions(eng, r, p):
     inst = r["inst"]
     # known finding: MGM2 computes gains as current - best, negative for improvements in max mode, but lets the largest gain move
@@ -98,12 +127,12 @@ def run(eng, p):
         a, b = states[k], states[k + 1]
         if a != b:
             continue
-        base = inst.cost(a)
+        base = _cost(inst, a)
         for v in inst.var_names():
             for d in inst.domains[v]:
                 if d != a[v]:
                     alt = dict(a)
                     alt[v] = d
-                    conds.append(cmp(base, inst.cost(alt)))
+                    conds.append(_not_worse(base, _cost(inst, alt), inst.mode))
     eng.prove(F.and_(conds) if conds else True, "a complete cycle without any move ended on an assignment that is not 1-opt",
               regions=regs, detail=str(states))
